@@ -162,7 +162,8 @@ Definition kids_find (id : Z) (l : list wtree) : option wtree :=
 
 Record rbuf := mkRB {
   rb_lines : Z; rb_cols : Z;
-  rb_cells : cell -> option (Z * Z);       (* content, id of the window whose handler drew it *)
+  rb_cells : cell -> option (Z * Z * cell); (* content; and, as a record of who drew it: the window whose
+                                              handler drew it and the RELATIVE position it used *)
   rb_mask : cell -> option Z;              (* maskdepth; None = -1 *)
   rb_clip : option rect;                   (* None = empty clip (clip.lines == 0) *)
   rb_xl : Z; rb_xc : Z;
@@ -228,7 +229,7 @@ Definition rb_draw (b : rbuf) (wid : Z) (f : cell -> option (option Z)) : rbuf :
   mkRB (rb_lines b) (rb_cols b)
        (fun q => if rb_drawable b q
                  then match f (fst q - rb_xl b, snd q - rb_xc b) with
-                      | Some (Some c) => Some (c, wid)
+                      | Some (Some c) => Some (c, wid, (fst q - rb_xl b, snd q - rb_xc b))
                       | Some None => None
                       | None => rb_cells b q
                       end
@@ -351,7 +352,7 @@ Definition term_show_cursor (tm : term) (l c shape blink : Z) : term :=
 (* tickit_renderbuffer_flush_to_term, per cell *)
 Definition term_flush_rb (tm : term) (b : rbuf) : term :=
   term_set_grid tm (fun q => match rb_cells b q with
-                             | Some (c, _) => c
+                             | Some (c, _, _) => c
                              | None => t_grid tm q
                              end).
 
